@@ -1,29 +1,17 @@
-"""Per-property metadata: used by check.py (timeouts, trusted base, clause table) and by
-tools/gen_manifest.py (MANIFEST.json is generated from this file)."""
+"""Per-property metadata: used by check.py (timeouts, trusted base, clause table, extra
+kernel obligations) and by tools/gen_manifest.py (MANIFEST.json is generated from it).
+One file per property under registry_d/, each defining ENTRY = dict(...)."""
+import importlib.util
+import os
 
-COMMON_ASSUME = [
-    "CPython 3.12 and asyncio primitives (StreamReader buffering, Queue, Event, Lock, wait_for, gather) behave as documented; they are exercised, not modelled",
-    "the correspondence is differential testing: it bounds what is seen of hand-modelled logic, the theorems are about the Lean model",
-]
+_D = os.path.join(os.path.dirname(os.path.abspath(__file__)), "registry_d")
+PROPS = {}
+for _fn in sorted(os.listdir(_D)):
+    if _fn.endswith(".py") and _fn[0] == "C":
+        _spec = importlib.util.spec_from_file_location("registry_d_" + _fn[:-3], os.path.join(_D, _fn))
+        _m = importlib.util.module_from_spec(_spec)
+        _spec.loader.exec_module(_m)
+        PROPS[_fn[:-3]] = _m.ENTRY
 
-PROPS = {
-    "C01": dict(
-        title="Only intact, correctly addressed frames are delivered",
-        design_ref="DESIGN.md section 6 / C01",
-        technique="Lean 4 theorem over all byte streams (reader model) + correspondence with FrameReader.read on a real StreamReader + Lean judge C01.spec on implementation deliveries",
-        level_text=(
-            "Proof: `C01.delivered_only_if_well_formed` and `C01.holds` show for ALL byte streams that a delivery by the reader model "
-            "is justified by the consumed bytes (start delimiter, LE16 length = consumed length in 10..1000, XOR checksum, recipient, "
-            "known sender, fields exactly those bytes). The model is tied to stream.py by running both on generated streams "
-            "(every kind, boundary sizes, every single-byte corruption position, XOR-zero corruptions, truncations, noise, 3 chunkings) "
-            "and the executable predicate C01.spec is evaluated by the Lean driver on everything the implementation delivered."),
-        level_note="Trusted: Lean kernel; reader model <-> stream.py tie is differential (generated streams); asyncio.StreamReader chunk handling is exercised, not modelled.",
-        clauses={
-            "delivered => well-formed, all streams": "theorem",
-            "non-delivery outcomes are ignored / protocol error / connection lost": "theorem (by construction of the model) + correspondence (implementation has no other behaviour)",
-            "every fragmentation into chunks": "correspondence (3 chunkings per stream; StreamReader trusted)",
-        },
-        assumptions=COMMON_ASSUME,
-    ),
-}
+# properties not claimed, with the reason (kept current by hand)
 NOT_APPLICABLE = {}
